@@ -18,6 +18,12 @@ func main() {
 	switch os.Args[1] {
 	case "run":
 		cmdRun(os.Args[2:])
+	case "replay":
+		fs := flag.NewFlagSet("replay", flag.ExitOnError)
+		prop := fs.String("prop", "", "property spec json")
+		cex := fs.String("cex", "", "counterexample json written by a check")
+		fs.Parse(os.Args[2:])
+		os.Exit(sym.RunReplay(*prop, *cex))
 	case "check":
 		cmdCheck(os.Args[2:])
 	default:
